@@ -27,6 +27,7 @@ import (
 
 	"go.uber.org/zap"
 
+	coreapi "github.com/zilliztech/milvus-cdc/core/api"
 	"github.com/zilliztech/milvus-cdc/server/model/meta"
 )
 
@@ -135,6 +136,11 @@ const (
 	c12DelPosC = "DELETE FROM task_position WHERE task_id = ? AND collection_id = ?"
 	c12SelInfo = "SELECT task_info_value FROM task_info WHERE task_info_key LIKE '"
 	c12SelPos  = "SELECT task_id, collection_id, collection_name, task_position_value, op_position_value, target_position_value FROM task_position WHERE task_position_key LIKE '"
+	// the replicate-message store (task_msg)
+	c12InsMsg     = "INSERT INTO task_msg (task_msg_key, task_msg_value) VALUES (?, ?) ON DUPLICATE KEY UPDATE task_msg_value = ?"
+	c12DelMsg     = "DELETE FROM task_msg WHERE task_msg_key = ?"
+	c12SelMsgEq   = "SELECT task_msg_value FROM task_msg WHERE task_msg_key = ?"
+	c12SelMsgLike = "SELECT task_msg_value FROM task_msg WHERE task_msg_key LIKE '"
 )
 
 func c12IsCreateTable(q string) bool {
@@ -173,6 +179,28 @@ func (e *c12SQL) apply(q string, args []any) error {
 		}
 		e.rows = append(e.rows, &c12Row{table: "pos", key: key, taskID: args[1].(string), collID: args[2].(int64), collName: args[3].(string),
 			v1: args[4].(string), v2: args[5].(string), v3: args[6].(string)})
+		e.mutations++
+		return nil
+	case c12InsMsg:
+		key := args[0].(string)
+		for _, r := range e.rows {
+			if r.table == "msg" && r.key == key {
+				r.v1 = args[2].(string)
+				e.mutations++
+				return nil
+			}
+		}
+		e.rows = append(e.rows, &c12Row{table: "msg", key: key, v1: args[1].(string)})
+		e.mutations++
+		return nil
+	case c12DelMsg:
+		var keep []*c12Row
+		for _, r := range e.rows {
+			if !(r.table == "msg" && r.key == args[0].(string)) {
+				keep = append(keep, r)
+			}
+		}
+		e.rows = keep
 		e.mutations++
 		return nil
 	case c12DelInfo, c12DelPos, c12DelPosC:
@@ -246,9 +274,20 @@ func (e *c12SQL) query(q string, args []any) ([][]any, error) {
 	if e.fail("query") {
 		return nil, errors.New("mysql: query failed")
 	}
+	if q == c12SelMsgEq {
+		var out [][]any
+		for _, r := range e.rows {
+			if r.table == "msg" && r.key == args[0].(string) {
+				out = append(out, []any{r.v1})
+			}
+		}
+		return out, nil
+	}
 	chars := vChars(q, c12MaxComp)
 	table, head := "", ""
 	switch {
+	case c12HasHead(chars, c12SelMsgLike):
+		table, head = "msg", c12SelMsgLike
 	case c12HasHead(chars, c12SelInfo):
 		table, head = "info", c12SelInfo
 	case c12HasHead(chars, c12SelPos):
@@ -311,7 +350,7 @@ func (e *c12SQL) query(q string, args []any) ([][]any, error) {
 		if !vLikeElems(kinds, lits, r.key) {
 			continue
 		}
-		if table == "info" {
+		if table == "info" || table == "msg" {
 			out = append(out, []any{r.v1})
 		} else {
 			out = append(out, []any{r.taskID, r.collID, r.collName, r.v1, r.v2, r.v3})
@@ -748,4 +787,62 @@ func VerifC12_MySQLChannelUpdate() {
 	st := c12MySQLStores(e, c12Root("root", vParam("L", 1)))
 	c12ChannelUpdateOn(st.taskCollectionPositionStore, "t1", 5)
 	vAssert(e.unknown == 0, "C12.every-statement-is-one-of-the-modelled-shapes")
+}
+
+// ---- the replicate-message store (task_msg) on MySQL ----
+
+func c12MsgStore(e *c12SQL, root string) *MySQLReplicateStore {
+	var db *sql.DB
+	if vSymbolic() {
+		db = new(sql.DB)
+	} else {
+		db = sql.OpenDB(c12Connector{e})
+	}
+	return &MySQLReplicateStore{log: zap.NewNop(), db: db, rootPath: root}
+}
+
+func c12MetaMsg(mark string) coreapi.MetaMsg {
+	return coreapi.MetaMsg{Base: coreapi.BaseTaskMsg{TaskID: "t", MsgID: mark}, Type: coreapi.DropCollectionMetaMsgType, Data: map[string]interface{}{}}
+}
+
+// VerifC12_MySQLReplicateStoreIsolation: the pending-drop records (task_msg) of two tenants with
+// arbitrary distinct root paths, written through the real MySQLReplicateStore. Whatever tenant 1
+// reads (its start-up reload: everything under its root; one record), writes or removes, tenant
+// 2's record is neither returned nor changed.
+func VerifC12_MySQLReplicateStoreIsolation() {
+	L := vParam("L", 2)
+	root1, root2 := c12Root("root1", L), c12Root("root2", L)
+	vAssume(root1 != root2)
+	vAssume(vAnd(!c12Contains(root1, "'"), !c12Contains(root2, "'")))
+	e := c12NewSQL()
+	s1, s2 := c12MsgStore(e, root1), c12MsgStore(e, root2)
+	ctx := context.Background()
+	key := "task_msg/t/m"
+	vAssert(s1.Put(ctx, key, c12MetaMsg("rec1")) == nil && s2.Put(ctx, key, c12MetaMsg("rec2")) == nil, "C12.seed-msg")
+	switch vChoice("op", 4) {
+	case 0: // what ReplicateMeteImpl.Reload reads at start-up
+		got, err := s1.Get(ctx, "", true)
+		vAssert(err == nil, "C12.reload-msgs-ok")
+		n1 := 0
+		for _, g := range got {
+			vAssert(g.Base.MsgID == "rec1", "C12.reload-returns-only-this-tenant's-pending-drops")
+			if g.Base.MsgID == "rec1" {
+				n1++
+			}
+		}
+		vAssert(n1 == 1, "C12.reload-finds-the-tenant's-own-pending-drop")
+	case 1:
+		got, err := s1.Get(ctx, key, false)
+		vAssert(err == nil && len(got) == 1 && got[0].Base.MsgID == "rec1", "C12.get-msg-returns-only-that-record")
+	case 2:
+		vAssert(s1.Put(ctx, key, c12MetaMsg("rec1b")) == nil, "C12.put-msg-ok")
+	case 3:
+		vAssert(s1.Remove(ctx, key) == nil, "C12.remove-msg-ok")
+		got, err := s1.Get(ctx, key, false)
+		vAssert(err == nil && len(got) == 0, "C12.remove-msg-removes-it")
+	}
+	got2, err := s2.Get(ctx, key, false)
+	vAssert(err == nil && len(got2) == 1 && got2[0].Base.MsgID == "rec2", "C12.foreign-pending-drop-untouched")
+	vAssert(e.unknown == 0, "C12.every-statement-is-one-of-the-modelled-shapes")
+	vReach("end")
 }
